@@ -55,6 +55,10 @@ func monitor(o *outcome) []finding {
 	for _, p := range o.Panics {
 		bad("panic", "%s", p)
 	}
+	fs = append(fs, o.Extra...)
+	if c.Mode == "addstress" {
+		return dedupe(fs)
+	}
 
 	// ---- index the log
 	const none = -1
@@ -113,11 +117,34 @@ func monitor(o *outcome) []finding {
 	ran := firstStart != none || winner != nil // the manager really ran
 	hung := len(o.Hangs) > 0
 
-	// registered runners: constructor + accepted Add calls made before anything was started
-	registered := 0
+	// Add calls: returns are matched with the earliest unmatched call (at most one is ever pending)
+	type addRec struct {
+		callSeq, retSeq, k int
+		ok              bool
+	}
+	var adds []*addRec
 	for _, x := range log {
-		if x.E == "add" && x.OK && (firstRunCall == none || x.Seq < firstRunCall) && (firstCloseCall == none || x.Seq < firstCloseCall) {
-			registered += x.I
+		switch x.E {
+		case "add.call":
+			adds = append(adds, &addRec{callSeq: x.Seq, retSeq: none, k: x.I})
+		case "add.ok", "add.rej", "add.err":
+			for _, a := range adds {
+				if a.retSeq == none {
+					a.retSeq, a.ok = x.Seq, x.E == "add.ok"
+					break
+				}
+			}
+		}
+	}
+	// registered runners: every Add call (and the constructor) that returned nil, in order
+	registered := 0
+	lateFrom := -1 // first runner index registered by an Add that returned after a Run call began
+	for _, a := range adds {
+		if a.ok {
+			if firstRunCall != none && a.retSeq > firstRunCall && lateFrom < 0 {
+				lateFrom = registered
+			}
+			registered += a.k
 		}
 	}
 	// A Close call can have won the `running` CAS only if it began before the Run calls were rejected.
@@ -171,9 +198,13 @@ func monitor(o *outcome) []finding {
 		if winner != nil {
 			// all_started, run_returns_after_all
 			if st == none || st > winner.retSeq {
-				bad("runner-not-started", "runner %d was not started before Run returned", i)
+				if lateFrom >= 0 && i >= lateFrom {
+					bad("add-accepted-never-started", "Add returned nil for runner %d (the call overlapped the start of Run) but Run returned without ever starting it", i)
+				} else {
+					bad("runner-not-started", "runner %d was not started before Run returned", i)
+				}
 			}
-			if rt == none || rt > winner.retSeq {
+			if (rt == none || rt > winner.retSeq) && !(lateFrom >= 0 && i >= lateFrom) {
 				bad("run-returned-early", "Run returned before runner %d returned", i)
 			}
 		}
@@ -217,18 +248,20 @@ func monitor(o *outcome) []finding {
 			break
 		}
 	}
-	for _, x := range log {
-		if x.E == "add" {
-			if x.OK && evidenceStarted != none && x.Seq > evidenceStarted {
-				bad("add-after-start-accepted", "Add returned nil after the manager had started")
-			}
-			if !x.OK && firstRunCall == none && firstCloseCall == none {
-				bad("add-before-start-rejected", "Add was rejected although neither Run nor Close was ever called")
-			}
-			if !x.OK && ((firstRunCall != none && x.Seq < firstRunCall) && (firstCloseCall == none || x.Seq < firstCloseCall)) {
-				bad("add-before-start-rejected", "Add was rejected before Run or Close was called")
-			}
+	for _, a := range adds {
+		if a.retSeq == none {
+			continue
 		}
+		// the call began after the manager had certainly started: must be rejected
+		if a.ok && evidenceStarted != none && a.callSeq > evidenceStarted {
+			bad("add-after-start-accepted", "Add was called after the manager had started and returned nil")
+		}
+		// the call returned before Run or Close was ever called: must be accepted
+		if !a.ok && (firstRunCall == none || a.retSeq < firstRunCall) && (firstCloseCall == none || a.retSeq < firstCloseCall) {
+			bad("add-before-start-rejected", "Add was rejected although neither Run nor Close had been called")
+		}
+	}
+	for _, x := range log {
 		if x.E == "add.err" {
 			bad("add-unexpected-error", "Add returned %s", x.Note)
 		}
